@@ -12,7 +12,7 @@ import shutil
 
 WAVES = [("/tmp/seed", "seed", ""), ("/tmp/seed2", "seed2", "-2"), ("/tmp/seed3", "seed3", "-3")]
 # changes that are caught by the check of another property (the other check's id)
-CAUGHT_BY = {("seed3", "C28"): "C30"}
+CAUGHT_BY = {}
 OUT = "/verif/seeded"
 NOTES = {
     ("seed", "C01"): "caught after indentation-only edits of started lines were added to the edit alphabet",
@@ -57,7 +57,7 @@ NOTES = {
     ("seed3", "C19"): "caught after 'missing value' lines for every comparator were added",
     ("seed3", "C20"): "caught after a UOD command with a hand-written un-anchored regex was added to the harness",
     ("seed3", "C25"): "first reported as harness nondeterminism (exit 2); now the isolation probe and the framework report state carried between fresh instances as a violation",
-    ("seed3", "C28"): "caught by C30 (the history needs a second run id, which C28's alphabet does not have) after exceptions from aggregator entry points were made violations instead of harness errors",
+    ("seed3", "C28"): "first caught only by C30 (after exceptions from aggregator entry points were made violations instead of harness errors); caught by C28 itself after the second exploration with a second run id was added",
     ("seed3", "C33"): "caught after every one-user configuration was also stored as the second save of that user",
     ("seed3", "C36"): "caught after runs with 400 ticks without a report were added",
     ("seed3", "C40"): "caught after scenarios in which a UOD command is handed over inside the window were added",
